@@ -308,6 +308,53 @@ func runC15(c *core.Ctx) {
 		t.Impl(2 * cnt)
 	})
 
+	// every combination of an hour count (dense small, every power of two and its neighbours up to the int64 limit, round calendar
+	// figures) with minute, second and fraction components at and next to their carries, both signs
+	c.Group("duration-component-product")
+	{
+		var hours []int64
+		for h := int64(0); h <= 26; h++ {
+			hours = append(hours, h)
+		}
+		for k := uint(5); k <= 21; k++ {
+			hours = append(hours, 1<<k-1, 1<<k, 1<<k+1)
+		}
+		hours = append(hours, 100, 1000, 4380, 8760, 8761, 87600, 876000, 1000000, 2562046, 2562047)
+		comps := []int64{0, 1, 29, 30, 58, 59}
+		fracs := []int64{0, 1, 2, 1000, 499999999, 500000000, 999999000, 999999998, 999999999}
+		for _, h := range hours {
+			h := h
+			c.Case(fmt.Sprintf("dur/components/hours=%d", h), func(t *core.T) {
+				t.NonTrivial()
+				t.Compared()
+				cnt := 0
+				for _, m := range comps {
+					for _, sec := range comps {
+						for _, f := range fracs {
+							rest := m*int64(time.Minute) + sec*int64(time.Second) + f
+							if h > (math.MaxInt64-rest)/int64(time.Hour) {
+								continue // not representable
+							}
+							v := time.Duration(h*int64(time.Hour) + rest)
+							for _, d := range []time.Duration{v, -v} {
+								cnt++
+								got, text, err := durRT(d)
+								if err != nil || got != d {
+									t.Fail("C15/duration/roundtrip", "duration %v (%d ns) marshals to %q and comes back as %d ns (err %v)", d, int64(d), text, int64(got), err)
+									t.Evals(cnt)
+									return
+								}
+							}
+						}
+					}
+				}
+				t.Evals(cnt)
+				t.Impl(2 * cnt)
+				t.Outcome("component-block")
+			})
+		}
+	}
+
 	// --- duration strings ---
 	c.Group("duration-strings")
 	toks := []string{"-", "P", "T", "1", "0.5", "Y", "M", "D", "H", "S"}
